@@ -297,17 +297,36 @@ CLAIMED['C15'] = dict(
     design='6/C15')
 
 CLAIMED['C03'] = dict(
-    text='Theorems over the complete space of from-states x targets x hook points x before/after-super variants (decided by the '
-         'kernel): C03_hook_fault_excepted (EXCEPTED with exactly the fault, future raising it, closed, cleanups once, nothing '
-         'escapes), C03_user_exception_excepted, C03_pause_hook_fault_reported / C03_play_hook_fault_reported, and the witness '
-         'C03_witness_fault_after_close for the recorded finding F18. The fault enumeration on the real code (every hook x '
-         'occurrence x variant x scenario, listeners, cleanups, call_soon, steps, construction) checks every clause and compares '
-         'the faulted transition with the model.',
-    note='Modelled, not verified: StateMachine.transition_to / Process.transition_failed / on_terminated / close with user '
-         'overrides of every hook (hand-written Lean mirror, compared with the real outcome of every faulted transition). '
-         'Listener faults are outside the model (EventHelper swallows them): monitor against the fault-free run. Known finding '
-         'F18 is reported as KNOWN-FINDING, any other failure is a violation.',
-    technique='Lean 4 exhaustive case proof over a transition model with one injected fault + fault enumeration on the real code',
+    text='Whole runs with one injected fault (process-control model with listeners + user overrides in every lifecycle hook, '
+         'lean/PlumpyModel/Fault/Process.lean): C03_hook_fault_ends_excepted — for every program, plan of listener requests, history and '
+         'every fault in on_exit_*/on_run/on_wait/on_finish/on_kill/on_running/…/on_terminated/on_close (any occurrence, before/after '
+         'super()) except the two points after close() (F18, C03_witness_fault_after_close / _run): once the fault has fired the process '
+         'is EXCEPTED with exactly it, future raising it, closed, cleanups once, no transition in progress, in every later configuration '
+         '(for on_terminated/on_close under the hypothesis that the run did not end in an error of the state machine itself); '
+         'C03_fault_never_breaks_agreement / C03_pause_play_fault_never_disturbs (no fault, pause/play hooks included, ever disturbs the '
+         'lifecycle part of the outcome agreement); C03_transition_with_fault (nothing propagates out of the faulty transition_to, from '
+         'every configuration, every pending or listener-issued request); C03_step_with_fault; C03_pausing_hook_fault_reported, '
+         'C03_paused_hook_fault_after_super, C03_pause_action_fault_reported, C03_playing_hook_fault_reported (handed to the requester / '
+         'the action future, _pausing cleared, state untouched). Faults that are not lifecycle hooks, on the model with listeners itself: '
+         'C03_raising_step_excepted (EXCEPTED with the exception, future, closed, cleanups once, listeners told once, pending request '
+         'dropped, step_until_terminated returned), C03_raising_sync_step_excepted, C03_failing_callback_excepted, '
+         'C03_late_failing_callback_changes_nothing; C03_swallowed_exceptions_change_nothing (listeners, cleanups: all run, nothing '
+         'propagates), C03_construction_fault_propagates, C03_output_hook_fault. Kept from before: the complete finite case space of one '
+         'transition (C03_hook_fault_excepted, …). NOT proved: that the stepping task returns after a hook fault — the statement is '
+         'false (C03_witness_stepper_blocked_after_exit_hook_fault); on every case of the harness it is decided by the correspondence '
+         'and the monitor. Every case of the fault enumeration on the real code (every hook x occurrence x variant x scenario, listeners, '
+         'cleanups, call_soon, steps, output hooks, construction, requests issued by listeners) is compared with the model after every op.',
+    note='Modelled, not verified: Process.step / pause / play / kill / fail / transition_to / transition_failed / on_terminated / close / '
+         '_do_pause / CancellableAction.run / call_with_super_check with user overrides of every hook (hand-written twins of '
+         'PM/Listener.lean, compared op by op with the real run of every case); EventHelper.fire_event, the cleanup loop, '
+         'StateMachineMeta.__call__, Process.out as small models. That the twins agree with PM/Listener.lean while the fault has not fired '
+         'is tested, not proved. Known finding F18 is reported as KNOWN-FINDING, any other failure is a violation. Three further '
+         'defects are recorded as Lean witnesses and in DESIGN.md (6/C03), outside the enumeration: a pause-hook fault of a superseded '
+         'pause action escapes into the stepping task, call_with_super_check is not exception-safe, fail() with a raising '
+         'on_exit_waiting leaves the stepping task blocked.',
+    technique='Lean 4 invariant proof over all histories of a process-control model with one injected fault (one lemma per model '
+              'function, induction over events) + exhaustive case proofs over the transition model + fault enumeration on the real code '
+              'compared op by op with the model',
     design='6/C03')
 
 CLAIMED['C07'] = dict(
